@@ -62,6 +62,7 @@ type Sched struct {
 	Policy     int
 	slowTask   string
 	DeadReport string
+	scrubs      [][2]string
 	rootDone    bool
 	LeakedTasks int
 	OnStep     func() // invariant hook, runs on the scheduler goroutine between two steps
@@ -198,6 +199,11 @@ func (s *Sched) mix(h *uint64, str string) {
 // Event appends a line to the event log (hashed always, kept when KeepTrace).
 func (s *Sched) Event(str string) {
 	s.mu.Lock()
+	for _, sc := range s.scrubs {
+		if strings.Contains(str, sc[0]) {
+			str = strings.ReplaceAll(str, sc[0], sc[1])
+		}
+	}
 	s.mix(&s.evHash, str)
 	if s.KeepTrace {
 		s.Trace = append(s.Trace, str)
@@ -216,6 +222,13 @@ func Event(format string, a ...any) {
 		return
 	}
 	s.Event(fmt.Sprintf(format, a...))
+}
+
+// Scrub makes the event log independent of run-specific strings (temp dirs).
+func (s *Sched) Scrub(from, to string) {
+	s.mu.Lock()
+	s.scrubs = append(s.scrubs, [2]string{from, to})
+	s.mu.Unlock()
 }
 
 func (s *Sched) EventHash() string      { return fmt.Sprintf("%016x", s.evHash) }
